@@ -420,7 +420,7 @@ func extWgAdd(fr *frame, a []value) value {
 func extWgWait(fr *frame, a []value) value {
 	p := wgCounter(a[0])
 	if (*p).(uint64) != 0 {
-		fr.i.ctx.end("BLOCKED", "WaitGroup.Wait with counter %d at %s", (*p).(uint64), fr.caller.site())
+		fr.park(func() bool { return (*p).(uint64) == 0 }, fmt.Sprintf("WaitGroup.Wait with counter %d at %s", (*p).(uint64), fr.caller.site()))
 	}
 	return nil
 }
